@@ -177,7 +177,13 @@ func runC03(c *Ctx) {
 			if okLeaf && okWrite {
 				w := &p.Trace[wi]
 				if isTreeAdd(w) {
+					// compare the path operands as resolved on this path (the path may be computed by a helper)
 					samePath = len(w.Args) >= 2 && w.Args[1].V == call.Call.Args[1]
+					for j := range p.Trace {
+						if p.Trace[j].In == ssa.Instruction(call) && len(p.Trace[j].Args) >= 2 && len(w.Args) >= 2 {
+							samePath = samePath || p.Trace[j].Args[1] == w.Args[1]
+						}
+					}
 				} else {
 					// Leaf.Update on the very leaf that is returned
 					samePath = w.Args[0].V == ssa.Value(call)
@@ -221,7 +227,7 @@ func runC03(c *Ctx) {
 				}
 				nStores++
 				fl := fieldOf(st.Addr)
-				allowed := (f == GU || f.Parent() == GU) && (fl == fUpd || fl == fDel)
+				allowed := onlyFrom(P, f, GU, 0) && (fl == fUpd || fl == fDel)
 				c.Check(allowed, "C03.input-intact", fnName(f), "store through caller-owned message: "+Expr(st.Addr), P.Pos(in.Pos()), "only the nil/restore pair of the multi arm may write the caller's notification")
 			})
 		}
@@ -379,22 +385,6 @@ func aliasRule(c *Ctx, rule string, pkgs []string) {
 	for k := range au.Assume {
 		c.Assumption(k)
 	}
-	// positive example: client/gnmi.noti copies before appending and must be classified as owned
-	pos := false
-	for _, o := range au.Owned {
-		if strings.HasPrefix(o, "client/gnmi.noti:") {
-			pos = true
-		}
-	}
-	inScope := false
-	for _, p := range pkgs {
-		if p == "client/gnmi" {
-			inScope = true
-		}
-	}
-	if inScope {
-		c.Check(pos, rule, "client/gnmi.noti", "positive example: copy-then-append is recognised as owned", "", "keeps the rule from going blind")
-	}
 	c.Check(len(au.Owned) > 0, rule, strings.Join(pkgs, ","), "positive examples: retained appends on owned bases are recognised", "", fmt.Sprintf("%d owned retained appends", len(au.Owned)))
 	c.OK(rule, strings.Join(pkgs, ","), "appends audited", "", fmt.Sprintf("%d append sites, %d with retained results, %d findings", au.Appends, au.Retained, len(fs)))
 	c.Floor(rule+"/appends", au.Appends, 5)
@@ -488,7 +478,7 @@ func resetRemoveAnnounce(c *Ctx, rule string) {
 					// deleted path is a one-element literal holding the same root
 					els := p.Trace[dl].Elems[1]
 					rootsChecked++
-					if len(els) != 1 || els[0] != root {
+					if len(els) != 1 || !(els[0] == root || sameElemLoad(els[0].V, root.V)) {
 						ok = false
 						rootDetail = fmt.Sprintf("; Delete(%s) announced as deleteNoti(…, %s, …)", Expr(p.Trace[dl].Args[1].V), Expr(root.V))
 					}
@@ -801,4 +791,65 @@ func gnmiDispatch(c *Ctx, a *cacheAnchors, rule string) {
 			}
 		}
 	}
+}
+
+// onlyFrom: f is root, a closure of root, or an unexported same-package helper that is called
+// only from such functions (so that root's path analysis, which enters helpers, covers it).
+func onlyFrom(P *Prog, f, root *ssa.Function, d int) bool {
+	top := f
+	for top.Parent() != nil {
+		top = top.Parent()
+	}
+	if top == root {
+		return true
+	}
+	if d > 3 || isExportedFn(top) || top.Pkg != root.Pkg {
+		return false
+	}
+	n := 0
+	ok := true
+	for _, g := range P.PkgFuncs(strings.TrimPrefix(pkgPathOf(root), modPath+"/")) {
+		if P.InTestFile(g) {
+			continue
+		}
+		for _, ci := range callsIn(g) {
+			if staticCallee(ci.Common()) == top || boundTarget(ci.Common()) == top {
+				n++
+				if !onlyFrom(P, g, root, d+1) {
+					ok = false
+				}
+			}
+		}
+	}
+	return ok && n > 0
+}
+
+// boundTarget: the method behind a bound-method closure used as a call operand (defer x.m(a)).
+func boundTarget(c *ssa.CallCommon) *ssa.Function {
+	mc, ok := c.Value.(*ssa.MakeClosure)
+	if !ok {
+		return nil
+	}
+	w := mc.Fn.(*ssa.Function)
+	if !strings.HasSuffix(w.Name(), "$bound") {
+		return nil
+	}
+	for _, ci := range callsIn(w) {
+		if g := staticCallee(ci.Common()); g != nil {
+			return g
+		}
+	}
+	return nil
+}
+
+// sameElemLoad: two loads of the same slice element in one iteration (s[i] written twice; go/ssa does no CSE).
+func sameElemLoad(a, b ssa.Value) bool {
+	ua, ok := a.(*ssa.UnOp)
+	ub, ok2 := b.(*ssa.UnOp)
+	if !ok || !ok2 {
+		return false
+	}
+	ia, ok := ua.X.(*ssa.IndexAddr)
+	ib, ok2 := ub.X.(*ssa.IndexAddr)
+	return ok && ok2 && ia.X == ib.X && ia.Index == ib.Index && ia.Block() == ib.Block()
 }
